@@ -22,7 +22,7 @@ VARIABLES net,        \* chunks in flight on the transport
           rwcClosed,  \* transport closed locally (rwc.Close)
           srMode,     \* "raw" | "pipe"
           srPending,  \* pipe installed, switch not yet performed
-          rd,         \* reader (serve) goroutine: "idle","inRaw","inPipe","failing","handler","closing","finishing","exited"
+          rd,         \* reader (serve) goroutine: "idle","inRaw","inPipe","failing","handler","handler_p","closing","finishing","exited"
           cp,         \* copier goroutine: "none","inRaw","inWrite","closing","notifying","done"
           pipe,       \* <<>> or <<chunk>>: chunk offered by the copier, not yet consumed
           pipeEnd,    \* pw.CloseWithError called (copier finished)
@@ -61,7 +61,9 @@ RdEnter == /\ rd = "idle"
                 ELSE /\ UNCHANGED <<srMode, srPending, cp>>
                      /\ rd' = IF srMode = "raw" THEN "inRaw" ELSE "inPipe"
            /\ UNCHANGED <<net, netEnd, rwcClosed, pipe, pipeEnd, prClosed, cn, gone, sent, got, ncn, nsent>>
+\* chunk kinds: "m" a good message, "p" a good message whose handler panics, "x" undecodable bytes
 Deliver(k) == IF k = "m" THEN rd' = "handler" /\ got' = Append(got, k)
+              ELSE IF k = "p" THEN rd' = "handler_p" /\ got' = Append(got, k)
               ELSE rd' = "failing" /\ UNCHANGED got        \* read returned; the decode error comes next
 \* the exit path of conn.serve, in two steps as in the code: the loop closes the transport when a
 \* read fails (CloseRwc, part of the Rd*End / RdFail actions); the deferred function then closes it
@@ -89,6 +91,10 @@ RdPipeData == /\ rd = "inPipe" /\ pipe # <<>>
               /\ UNCHANGED <<net, netEnd, rwcClosed, srMode, srPending, pipeEnd, prClosed, cn, gone, sent, ncn, nsent>>
 RdPipeEnd == /\ rd = "inPipe" /\ pipe = <<>> /\ pipeEnd /\ Exit
              /\ UNCHANGED <<net, netEnd, srMode, srPending, cp, pipe, pipeEnd, sent, got, ncn, nsent>>
+\* a handler panic is recovered by the deferred function of conn.serve, which closes the transport and
+\* runs finish() like every other exit
+HandlerPanic == /\ rd = "handler_p" /\ Exit
+                /\ UNCHANGED <<net, netEnd, srMode, srPending, cp, pipe, pipeEnd, sent, got, ncn, nsent>>
 HandlerReturn == /\ rd = "handler" /\ rd' = "idle"
                  /\ UNCHANGED <<net, netEnd, rwcClosed, srMode, srPending, cp, pipe, pipeEnd, prClosed, cn, gone, sent, got, ncn, nsent>>
 
@@ -111,8 +117,8 @@ CpNotify == /\ cp = "closing" /\ cp' = "notifying"
 CpNotified == /\ cp = "notifying" /\ cp' = "done" /\ NotifyGone
               /\ UNCHANGED <<net, netEnd, rwcClosed, srMode, srPending, rd, pipe, pipeEnd, prClosed, sent, got, ncn, nsent>>
 
-LibNext == RdEnter \/ RdRawData \/ RdRawEnd \/ RdPipeData \/ RdPipeEnd \/ RdFail \/ RdFinish \/ RdFinished \/ HandlerReturn \/ CpRead \/ CpEnd \/ CpWriteFails \/ CpNotify \/ CpNotified
-Next == \/ \E k \in {"m", "x"} : PeerSend(k)
+LibNext == RdEnter \/ RdRawData \/ RdRawEnd \/ RdPipeData \/ RdPipeEnd \/ RdFail \/ RdFinish \/ RdFinished \/ HandlerReturn \/ HandlerPanic \/ CpRead \/ CpEnd \/ CpWriteFails \/ CpNotify \/ CpNotified
+Next == \/ \E k \in {"m", "x", "p"} : PeerSend(k)
         \/ \E h \in {"eof", "err"} : PeerEnd(h)
         \/ LocalClose \/ CloseNotify \/ LibNext
 Spec == Init /\ [][Next]_vars
@@ -121,8 +127,8 @@ Spec == Init /\ [][Next]_vars
 Terminated == rd = "exited"
 Quiescent  == ~ENABLED LibNext
 OnlyAfter  == cn = "closed" => (rwcClosed \/ netEnd # "open")
-NoLoss     == \E i \in 0..Len(sent) : got = SelectSeq(SubSeq(sent, 1, i), LAMBDA k : k = "m")
-NoBadDelivered == \A i \in 1..Len(got) : got[i] = "m"
+NoLoss     == \E i \in 0..Len(sent) : got = SelectSeq(SubSeq(sent, 1, i), LAMBDA k : k \in {"m", "p"})
+NoBadDelivered == \A i \in 1..Len(got) : got[i] \in {"m", "p"}
 FiresWhenGone == (Terminated /\ Quiescent /\ cn # "nil") => cn = "closed"
 NoLeak        == (Terminated /\ Quiescent) => cp \in {"none", "done"}
 =============================================================================
